@@ -158,6 +158,15 @@ class SymB:
     def carray(self, values, dtype=None):
         return self.I.np.as_arr(values, dtype)
 
+    def tarray(self, name, extents, dtype="float64"):
+        """array with SYMBOLIC extents (z3 array term); extents: Sym ints (shared between arrays) or concrete ints"""
+        dt = np.dtype(dtype)
+        esort = z3.RealSort() if dt.kind == "f" else (z3.IntSort() if dt.kind in "iu" else z3.BoolSort())
+        extents = tuple(extents) if isinstance(extents, (tuple, list)) else (extents,)
+        arr = z3.Array(name, *([z3.IntSort()] * len(extents)), esort)
+        self.symbols[name] = ("array", (arr, extents, dt))
+        return TArr(arr, extents, dt)
+
     def obj(self, clskey, **attrs):
         cls = self.I.find_class(clskey)
         o = Obj(cls)
@@ -243,6 +252,17 @@ class ConcB:
 
     def carray(self, values, dtype=None):
         return np.asarray(values, dtype=dtype)
+
+    def tarray(self, name, extents, dtype="float64"):
+        v = self.model.get(name)
+        if v is None:
+            extents = tuple(extents) if isinstance(extents, (tuple, list)) else (extents,)
+            return np.zeros(tuple(int(e) for e in extents), dtype=dtype)
+        arr = np.array(v, dtype=dtype)
+        ext = tuple(extents) if isinstance(extents, (tuple, list)) else (extents,)
+        if arr.size == 0 and len(ext) > 1:      # an empty nested list has lost its trailing extents
+            arr = arr.reshape((0,) + tuple(int(e) for e in ext[1:]))
+        return arr
 
     def obj(self, clskey, **attrs):
         cls = real_object(clskey)
@@ -526,6 +546,8 @@ def dyadic_model(hyps, goal, symbols, timeout_ms=10000):
             s2.add(t * DYADIC_DEN == z3.ToReal(k), k >= -DYADIC_MAX, k <= DYADIC_MAX)
         elif sort == "int":
             s2.add(t >= -DYADIC_MAX, t <= DYADIC_MAX)
+        elif sort == "array":
+            return None
     if s2.check() == z3.sat:
         return s2.model()
     return None
@@ -534,6 +556,8 @@ def dyadic_model(hyps, goal, symbols, timeout_ms=10000):
 def model_values(model, symbols):
     out = {}
     for name, (sort, t) in symbols.items():
+        if sort == "array":
+            continue
         v = model.eval(t, model_completion=True)
         if sort == "real":
             if z3.is_rational_value(v):
@@ -546,6 +570,29 @@ def model_values(model, symbols):
             out[name] = v.as_long() if z3.is_int_value(v) else 0
         else:
             out[name] = z3.is_true(v)
+    # arrays of symbolic extent: evaluate the extents, then every element (extents capped at 6 for the replay)
+    import itertools
+    for name, (sort, t) in symbols.items():
+        if sort != "array":
+            continue
+        arr, extents, dt = t
+        ext = []
+        for e in extents:
+            ev = model.eval(term_of(raw(e), "int"), model_completion=True) if not isinstance(e, int) else None
+            ext.append(e if isinstance(e, int) else (ev.as_long() if z3.is_int_value(ev) else 0))
+        if any(x > 6 or x < 0 for x in ext):
+            out[name] = None
+            continue
+        def rec(prefix, dims):
+            if not dims:
+                v = model.eval(z3.Select(arr, *[z3.IntVal(i) for i in prefix]), model_completion=True)
+                if z3.is_rational_value(v):
+                    return float(fractions.Fraction(v.numerator_as_long(), v.denominator_as_long()))
+                if z3.is_int_value(v):
+                    return v.as_long()
+                return z3.is_true(v)
+            return [rec(prefix + [i], dims[1:]) for i in range(dims[0])]
+        out[name] = rec([], ext)
     return out
 
 
@@ -653,6 +700,9 @@ def _describe(v):
 def jsonable_model(m):
     out = {}
     for k, v in m.items():
+        if isinstance(v, list) or v is None:
+            out[k] = {"array": v}
+            continue
         if isinstance(v, fractions.Fraction):
             out[k] = str(v) if v.denominator != 1 else int(v)
         else:
@@ -663,6 +713,9 @@ def jsonable_model(m):
 def model_from_json(m):
     out = {}
     for k, v in m.items():
+        if isinstance(v, dict) and "array" in v:
+            out[k] = v["array"]
+            continue
         if isinstance(v, str):
             out[k] = fractions.Fraction(v)
         elif isinstance(v, bool):
@@ -695,6 +748,12 @@ def sample_models(I, c, cfg, n, seed, decimal=False):
             s.add(h)
         pins = []
         for name, (sort, t) in syms:
+            if sort == "array":
+                arr, extents, dt = t
+                for e in extents:
+                    if not isinstance(e, int):
+                        s.add(term_of(raw(e), "int") <= 4)
+                continue
             if sort == "real":
                 kk = z3.Int(name + "$k")
                 if decimal:
